@@ -17,11 +17,11 @@ CFG = dict(
                  "5": "the server wrote an envelope of its own that the protocol does not call for",
                  "6": "the read loop was blocked or the connection ended in a conversation without faults whose handlers consume their input"},
     rule="lock-step in synctest bubbles (real goat.Server.Serve on a scripted transport, handler bodies gated by the schedule; one action, "
-         "synctest.Wait, snapshot): ALL envelope sequences of length <= 3 (quick and thorough: 22.8 thousand; thorough adds a seeded sample of 20000 of the 6.1*10^5 sequences of length 4 - all of them do not fit the thorough time box) over an alphabet of 28 envelope shapes (each field "
+         "synctest.Wait, snapshot): ALL envelope sequences of length <= 2 plus a seeded third of those of length 3 (quick: ~8.1 thousand; the full 22.8 thousand of length <= 3 take ~30 s on an idle machine but several minutes on the loaded one) / ALL of length <= 3 plus a seeded sample of 20000 of the 6.1*10^5 sequences of length 4 (thorough) over an alphabet of 28 envelope shapes (each field "
          "present / absent / undecodable, 2 stream ids, unary and stream methods, wrong destination, 4 kinds of bad method string, unknown "
          "service / method, body / trailer / reset / other-type reset for unknown and open ids, duplicate opens, undecodable bodies), each "
          "followed by a valid unary probe whose reply must arrive; seeded random sequences of length 4..40; field-level mutations of valid "
-         "conversations; handlers that abandon 0..4 unconsumed messages; handlers that return with 0..2 leftovers (message, half-close, zero-length message, late message) followed by a new stream on the same / another id whose handler must see only its own messages; random walks with arbitrary handler behaviour followed by the "
+         "conversations; handlers that abandon 0..4 unconsumed messages; streams from several sources on one connection (one id space per connection: equal ids from different sources, and source names / ids whose concatenations coincide); a transport that blocks (peer slow to read) with the writer parked, envelopes that call for a reset, virtual time advanced by 10 ms .. 1 h, then unblocked: every reset due must be written (reason 3); handlers that return with 0..2 leftovers (message, half-close, zero-length message, late message) followed by a new stream on the same / another id whose handler must see only its own messages; random walks with arbitrary handler behaviour followed by the "
          "probe; parseRawMethod against Model/Method.v on 230 strings. The rig runs as 12 parallel child processes; a process death or a wedge (real-time watchdog) is re-run alone and, if it persists, recorded as a failing case (reasons 7 / 8).",
     assumptions=["payloads, metadata, names are opaque to the server connection (tokens)",
                  "the transport returns queued envelopes in order, then its error; honours its context in Read and in a blocked Write",
